@@ -287,7 +287,74 @@ def judge_fault(acc, name, unit, reps, status, payload):
     return tuple(sorted(outcomes))
 
 
-CASES = {"ctor": case_ctor, "route": case_route, "trace": case_trace, "huge": case_huge, "fault": case_fault, "wrongtype": case_wrongtype}
+CACHE_SIZES = [0, 1, 2, 256, None, -1]
+CACHE_OPT = ["unset"] + CACHE_SIZES
+
+
+def case_cacheapi(acc, a, b, c, d, e):
+    """The module-level cache API with every combination of documented sizes (int or None; 'unset' = argument not given), followed by
+    every other cache function and ordinary URL work: nothing but ValueError/TypeError may come out."""
+    import warnings
+    acc.evals += 1
+    acc.nontrivial += 1
+    kw = {}
+    for name, v in (("idna_encode_size", a), ("idna_decode_size", b), ("encode_host_size", c), ("ip_address_size", d), ("host_validate_size", e)):
+        if v != "unset":
+            kw[name] = v
+    steps = [("cache_configure(%r)" % (kw,), lambda: impl.yarl.cache_configure(**kw)),
+             ("cache_info()", lambda: dict(impl.yarl.cache_info())),
+             ("URL work", lambda: (impl.URL("http://\xe9.example/p").host, impl.URL.build(scheme="http", host="\xfc.example").raw_host,
+                                   impl.URL("http://a.example").with_host("b.example").host)),
+             ("cache_info()", lambda: dict(impl.yarl.cache_info())),
+             ("cache_clear()", lambda: impl.yarl.cache_clear()),
+             ("URL work", lambda: impl.URL("http://\xe9.example/p").host),
+             ("cache_configure()", lambda: impl.yarl.cache_configure())]
+    out = []
+    try:
+        with warnings.catch_warnings():
+            warnings.simplefilter("ignore")
+            for name, fn in steps:
+                try:
+                    fn()
+                    out.append("ok")
+                except (ValueError, TypeError) as ex:
+                    out.append(type(ex).__name__)
+                except Exception as ex:  # noqa: BLE001
+                    acc.viol("cacheapi", (a, b, c, d, e), observed="%s raised %s: %s" % (name, type(ex).__name__, str(ex)[:100]),
+                             expected="None, ValueError or TypeError", msg="after cache_configure(%r): %s raised %s: %s" % (kw, name, type(ex).__name__, ex))
+                    return None
+    finally:
+        with warnings.catch_warnings():
+            warnings.simplefilter("ignore")
+            try:
+                impl.yarl.cache_configure()
+            except Exception:  # noqa: BLE001
+                pass
+    return tuple(out)
+
+
+def task_cacheapi(part, nparts):
+    acc = Acc(ID, impl.backend)
+    states = set()
+    i = 0
+    for a in CACHE_OPT:
+        for b in CACHE_OPT:
+            for c in CACHE_OPT:
+                for d in ("unset", 0, None, 5):
+                    for e in ("unset", 0, 7):
+                        i += 1
+                        if i % nparts != part:
+                            continue
+                        r = case_cacheapi(acc, a, b, c, d, e)
+                        if r is not None:
+                            states.add(r)
+    acc.state_count = len(states)
+    acc.sample({"cache_api_outcomes": sorted(states)[:4], "backend": impl.backend}, 1)
+    return acc.result()
+
+
+CASES = {"ctor": case_ctor, "route": case_route, "trace": case_trace, "huge": case_huge, "fault": case_fault, "wrongtype": case_wrongtype,
+         "cacheapi": case_cacheapi}
 
 
 def task_ctor(prefix, encoded, maxlen, shard):
@@ -346,9 +413,13 @@ def plan(ctx):
         for i in range(len(HUGE)):
             tasks.append(("checks.C19", "task_huge", (i, quick), b, "h"))
         tasks.append(("checks.C19", "task_wrongtypes", (), b, "w"))
+        for part in range(4):
+            tasks.append(("checks.C19", "task_cacheapi", (part, 4), b, "ca"))
     spaces = [("F1", 1), ("X2", 2)] + ([] if quick else [("K3", 4), ("F2", 6)])
     tasks += sweep.plan_routes("checks.C19", routes.NAMES, spaces)
     tasks += sweep.plan_routes("checks.C19", routes.NAMES_SUB, [("F1", 1), ("X2", 2)])
+    tasks += sweep.plan_ctx("checks.C19", ctx.tier, BACKENDS)
+    ctx.notes["context_routes"] = sweep.ctx_note()
     q, _ = impl.discover_quoter_configs(ctx.build["pkg"])
     for name in q:
         tasks.append(("checks.C19", "task_faults", (name, quick), "c", "f"))
